@@ -197,6 +197,9 @@ VARIANTS = [
     V("absent groups detected by comparing the result with the padding identity", ("C20",), "R-COLLIDE", "core.py", '    results = combine(x_chunk, agg, axis, keepdims, is_aggregate=True)\n    return _finalize_results(results, agg, axis, expected_groups, reindex=reindex)', '    results = combine(x_chunk, agg, axis, keepdims, is_aggregate=True)\n    finalized = _finalize_results(results, agg, axis, expected_groups, reindex=reindex)\n    (identity,) = agg.fill_value["intermediate"][:1]\n    finalized[agg.name] = np.where(finalized[agg.name] == identity, fill_value, finalized[agg.name])\n    return finalized', must_mention="identity"),
     # ---------------- R-PAIRS[collapse] sampled-labels clause (C08)
     V("labels replaced by their first slice when first and last slice agree", ("C08",), "R-PAIRS[collapse]", "core.py", '    # if indices=[2,2,2], npg assumes groups are (0, 1, 2);', '    if nax == 1 and by.ndim > 1 and np.array_equal(by[0], by[-1]):\n        by = by[0]\n\n    # if indices=[2,2,2], npg assumes groups are (0, 1, 2);', must_mention="slice"),
+    # ---------------- R-QRANGE (C18, C19)
+    V("quantile levels no longer bounded", ("C18", "C19"), "R-QRANGE", "core.py", '            if not ((qs >= 0) & (qs <= 1)).all():\n                raise ValueError("Quantiles must be in the range [0, 1]")\n', '', must_mention="quantile"),
+    V("quantile levels bounded above only", ("C18", "C19"), "R-QRANGE", "core.py", '            if not ((qs >= 0) & (qs <= 1)).all():', '            if not (qs <= 1).all():', must_mention="below"),
     # ---------------- R-LOOPSTORE (C09, C19)
     V("cohort map overwrites a repeated block set", ("C09", "C19"), "R-LOOPSTORE", "core.py", '        merged_cohorts[chunk] = sorted(merged_cohorts.get(chunk, []) + cohort)', '        merged_cohorts[chunk] = cohort', must_mention="merged_cohorts"),
     V("twin: cohort map merges under an explicit membership test", ("C09", "C19", "C02"), "", "core.py", '        merged_cohorts[chunk] = sorted(merged_cohorts.get(chunk, []) + cohort)',
